@@ -20,7 +20,7 @@ ASSUMPTIONS = [
     'handler tables are read through the internal names _handlers/_globals/_tasks (inconclusive if they disappear)',
     'a generator handler that yields None right after catching TimeoutError is not generated',
 ]
-REQUIRED = ['call_by_object', 'wait_by_object', 'wait_by_name', 'nested_call', 'sequential_calls', 'callee_raises_plain',
+REQUIRED = ['falsy_value_after_call', 'call_by_object', 'wait_by_object', 'wait_by_name', 'nested_call', 'sequential_calls', 'callee_raises_plain',
             'callee_generator_raises_first_step', 'callee_generator_raises_after_yield', 'callee_multi_handler', 'timeout_expired',
             'timeout_not_expired', 'timeout_zero', 'roots_in_flight_2plus', 'same_event_type_called_concurrently']
 REQUIRED_OBLIGATIONS = ['RESUME_ONCE', 'RESULT', 'AFTER_CALLEE', 'TIMEOUT_NOT_EARLY', 'CALLER_FEEDBACK', 'CALLER_VALUE', 'RESIDUE']
@@ -147,6 +147,10 @@ def evaluate(case, w, norm, before, after, comps):
         if gi < last or started != ended:
             detail.update({'resumed_at': gi, 'callee_last_step_at': last, 'callee_handlers_started': started, 'finished_before_resume': ended})
             problems.append(('AFTER_CALLEE', detail))
+    for h in case['handlers']:
+        b_ = h['body']
+        if any(a[0] == 'yieldlit' and i > 0 and b_[i - 1][0] in ('call', 'wait', 'waitname') for i, a in enumerate(b_)):
+            marks.add('falsy_value_after_call')
     roots = [u for u, info in w.events.items() if info['parent'] is None]
     if len(roots) >= 2:
         marks.add('roots_in_flight_2plus')
@@ -215,6 +219,10 @@ def corpus():
         HD(1, 'a', [['call', E('b')], ['yield', 'x'], ['wait', E('c')], ['waitname', E('d')], ['ret', 'end']], gen=True),
         HD(2, 'b', [['call', E('c')], ['ret', 'b']], gen=True), HD(3, 'c', [['ret', 'c1']]), HD(4, 'c', [['yield', 'c2'], ['yield', None], ['yield', 'c3']], gen=True, prio=1),
         HD(5, 'd', [['ret', 'd']])], 'fires': [E('a', flags=SF)]})
+    # falsy (non-None) values relayed right after a call / wait, and a bare yield right after a call
+    cs.append({'name': 'falsy-relay', 'handlers': [
+        HD(1, 'a', [['call', E('b')], ['yieldlit', 0], ['wait', E('b')], ['yieldlit', ''], ['call', E('b')], ['yield', None], ['yieldlit', False]], gen=True),
+        HD(2, 'b', [['retlit', 0.0]])], 'fires': [E('a', flags=SF), E('a', flags=SF)]})
     # failing callees: plain raise, generator raising at first step, after a yield, with a sibling handler
     for k, body in enumerate(([['raise']], None, None, None)):
         pass
@@ -268,8 +276,10 @@ def gen_case(rng):
                 if rng.random() < 0.3:
                     opts = {'timeout': rng.choice([0, 1, 2, 5, 30])}
                 body.append([kind, callee_spec(lv), opts])
-            elif r < 0.75:
+            elif r < 0.66:
                 body.append(['yield', rng.choice([None, 'y'])])
+            elif r < 0.75:
+                body.append(['yieldlit', rng.choice([0, False, '', 0.0])])   # falsy but non-None results are results
             elif r < 0.8 and lv + 1 < nlev:
                 body.append(['fire', callee_spec(lv)])
         r = rng.random()
